@@ -47,9 +47,13 @@ package dkg
 //@   modifies nothing
 //@   ensures [C08:invalid-transition-is-an-error] err != nil
 
+// expired(d): the deadline of the attempt recorded in d has passed. Introduced by definition at hasTimedOut's return
+// (assumption: the clock does not cross the deadline between two reads inside one mutator call).
+//@ ghost expired(ref) bool
 //@ func hasTimedOut(details) (r)
 //@   props C08
 //@   modifies nothing
+//@   defines r <==> expired(details)
 
 //@ func isProposalPhase(d) (r)
 //@   props C08
@@ -92,36 +96,42 @@ package dkg
 //@   modifies d.State
 //@   ensures [C08:Left-legal] err == nil ==> movedLegally(d, res, Left)
 //@   ensures [C08:Left-error-keeps-record] err != nil ==> res == nil && sameRecord(d)
+//@   ensures [C08:a-time-expired-Left-is-rejected] expired(d) ==> err != nil
 
 //@ func (*DBState).Joined(d, me, previousGroup) (res, err)
 //@   props C08
 //@   modifies d.State, d.FinalGroup
 //@   ensures [C08:Joined-legal] err == nil ==> movedLegally(d, res, Joined) && d.FinalGroup == previousGroup
 //@   ensures [C08:Joined-error-keeps-record] err != nil ==> res == nil && sameRecord(d)
+//@   ensures [C08:a-time-expired-Joined-is-rejected] expired(d) ==> err != nil
 
 //@ func (*DBState).Accepted(d, me) (res, err)
 //@   props C08
 //@   modifies d.State, d.Acceptors, d.Rejectors, elems(d.Rejectors), heap("E:Int")
 //@   ensures [C08:Accepted-legal] err == nil ==> movedLegally(d, res, Accepted)
 //@   ensures [C08:Accepted-error-keeps-record] err != nil ==> res == nil && sameRecord(d)
+//@   ensures [C08:a-time-expired-Accepted-is-rejected] expired(d) ==> err != nil
 
 //@ func (*DBState).Rejected(d, me) (res, err)
 //@   props C08
 //@   modifies d.State, d.Acceptors, d.Rejectors, elems(d.Acceptors), heap("E:Int")
 //@   ensures [C08:Rejected-legal] err == nil ==> movedLegally(d, res, Rejected)
 //@   ensures [C08:Rejected-error-keeps-record] err != nil ==> res == nil && sameRecord(d)
+//@   ensures [C08:a-time-expired-Rejected-is-rejected] expired(d) ==> err != nil
 
 //@ func (*DBState).StartExecuting(d, me) (res, err)
 //@   props C08
 //@   modifies d.State
 //@   ensures [C08:StartExecuting-legal] err == nil ==> res == d && legal(old(d.State), d.State) && (d.State == Executing || d.State == Left) && d.Epoch == old(d.Epoch)
 //@   ensures [C08:StartExecuting-error-keeps-record] err != nil ==> res == nil && sameRecord(d)
+//@   ensures [C08:a-time-expired-StartExecuting-is-rejected] expired(d) ==> err != nil
 
 //@ func (*DBState).Executing(d, me, metadata) (res, err)
 //@   props C08 C09
 //@   modifies d.State
 //@   ensures [C08:Executing-legal] err == nil ==> res == d && legal(old(d.State), d.State) && (d.State == Executing || d.State == Left) && d.Epoch == old(d.Epoch)
 //@   ensures [C08:Executing-error-keeps-record] err != nil ==> res == nil && sameRecord(d)
+//@   ensures [C08:a-time-expired-Executing-is-rejected] expired(d) ==> err != nil
 //@   ensures [C09:only-leader-triggers-execution] err == nil && d.State == Executing ==> metadata.Address == old(d.Leader.Address)
 
 //@ func (*DBState).Complete(d, finalGroup, share) (res, err)
@@ -130,6 +140,7 @@ package dkg
 //@   ensures [C08:Complete-legal] err == nil ==> movedLegally(d, res, Complete) && old(d.State) == Executing
 //@   ensures [C08:Complete-records-whole-epoch] err == nil ==> d.FinalGroup == finalGroup && d.KeyShare == share && finalGroup != nil && share != nil
 //@   ensures [C08:Complete-error-keeps-record] err != nil ==> res == nil && sameRecord(d)
+//@   ensures [C08:a-time-expired-Complete-is-rejected] expired(d) ==> err != nil
 
 //@ func (*DBState).ReceivedAcceptance(d, them, metadata) (res, err)
 //@   props C08 C09
@@ -470,7 +481,6 @@ package dkg
 //@   modifies nothing
 //@   ensures err == nil ==> selfSigned(i)
 // selfSigned(id): the identity carries a valid signature of its own key; joinerChecked(p): participant p decoded to a self-signed identity
-//@ ghost selfSigned(ref) bool
 //@ ghost joinerChecked(ref) bool
 
 //@ func validateJoinerSignatures(terms, targetSch) (err)
@@ -479,6 +489,8 @@ package dkg
 //@   modifies nothing
 //@   call ValidSignature#0: assert [C09:the-identity-checked-is-the-joiner-decoded-under-the-proposal-scheme] id != nil && id.Scheme == targetSch && participant == terms.Joining[rangeindex0 + 1]
 //@   loop 0: invariant [C09:joiner-scan-position] -1 <= rangeindex0 && rangeindex0 < len(terms.Joining)
+//@   loop 0: invariant [C09:every-joiner-passed-so-far-is-self-signed] forall k int {terms.Joining[k]} :: 0 <= k && k <= rangeindex0 ==> key.pSelfSigned(terms.Joining[k], targetSch)
+//@   ensures [C09:an-accepted-proposal-has-only-self-signed-joiners] err == nil ==> (forall k int {terms.Joining[k]} :: 0 <= k && k < len(terms.Joining) ==> key.pSelfSigned(terms.Joining[k], targetSch))
 
 //@ func validateForAllDKGs(currentState, terms) (err)
 //@   props C08
